@@ -2,7 +2,7 @@
    ALL arguments and every instance of the number signature.  A semantic change of the source (update formula,
    bisection step, stopping tests, gradient clipping, defaults) changes the generated term and breaks a lemma. *)
 From Coq Require Import ZArith List Bool PrimFloat.
-From Pymoto Require Import Model.Concat Model.OC.
+From Pymoto Require Import Base.PyFloat Model.Concat Model.OC.
 From GenC17 Require Import OCGen.
 Import ListNotations.
 
@@ -98,5 +98,5 @@ Lemma gen_default_params_eq : gen_default_params = default_params.
 Proof. reflexivity. Qed.
 
 (* the cap of the bracket-growing loop *)
-Lemma gen_huge_eq : gen_huge = ohuge FloatOOps.
-Proof. reflexivity. Qed.
+Lemma gen_huge_eq : PFlt gen_huge = ohuge PyOOps /\ gen_huge = ohuge FloatOOps.
+Proof. split; reflexivity. Qed.
